@@ -32,7 +32,7 @@ ASSUMPTIONS = ["aliasing is demanded only of the operations the statement lists 
                "saved-position shortcuts and their statistics are not part of the compared state"]
 
 V_TENSOR = ["splitUniform", "splitNonUniform", "splitEqual", "splitUnEqual", "truediv", "floordiv", "swizzle", "swap",
-            "flatten", "merge", "unflatten", "updateCoords", "updatePayloads", "deepcopy"]
+            "flatten", "merge", "unflatten", "flatten_flattened", "updateCoords", "updatePayloads", "deepcopy"]
 V_FIBER = ["f_splitUniform", "f_splitEqual", "f_splitNonUniform", "f_splitUnEqual", "f_swap", "f_flatten", "f_merge",
            "f_unflatten", "f_add_fiber", "f_mul_fiber", "f_add_scalar", "f_mul_scalar", "f_copy", "f_copy_noowner",
            "f_deepcopy", "f_truediv", "f_floordiv", "f_fromFiber"]
@@ -233,6 +233,24 @@ def check(case, rec):
             rec.cls("V:" + op)
             rec.nontrivial(d >= 2 and len(cont) >= 3)
             return
+    elif k == "flatten_flattened":
+        # the operand under test is itself the result of a flatten: its rank id is a list
+        if d < 3:
+            return
+        dd = sel[0] % (d - 2)
+        pre = X.flattenRanks(depth=dd, levels=1, coord_style=case["style"])
+        st1 = State(pre)
+        res = pre.flattenRanks(depth=dd, levels=1, coord_style=case["style"]) if sel[1] % 2 else \
+            pre.mergeRanks(depth=dd, levels=1, coord_style="absolute")
+        st1.unchanged("flatten of a flattened tensor")
+        st0.unchanged("flatten twice")
+        if any(a is b for a in res.getRankIds() for b in pre.getRankIds() if isinstance(a, list)):
+            raise Violation("aliasing", "flatten of a flattened tensor shares a rank-id list with its operand")
+        check_disjoint(res, pre, "flatten of a flattened tensor", rec)
+        follow_up(res, pre, st1, case, rec, "flatten of a flattened tensor")
+        rec.cls("V:" + op)
+        rec.nontrivial(len(cont) >= 3)
+        return
     elif k == "updateCoords":
         res = X.updateCoords(lambda i, c, p: S - 1 - c, depth=depth)
     elif k == "updatePayloads":
